@@ -250,6 +250,8 @@ pub fn elide(v: &serde_json::Value) -> serde_json::Value {
     }
 }
 
+pub const ABORTED: &str = "exploration aborted after a run hit the wall-clock cap";
+
 pub struct Harness<'a> {
     pub prop: &'a dyn Prop,
     pub ctx: &'a ExecCtx,
@@ -268,12 +270,25 @@ impl<'a> Harness<'a> {
         scn.seed = self.seed;
         scn.index_no = self.item * 1_000_000 + self.sub;
         self.sub += 1;
+        if self.ctx.abort.load(Ordering::Relaxed) {
+            return Err(ABORTED.to_string());
+        }
         let model = Model::new(scn);
         let outs = exec_scenario(self.ctx, &self.wd, scn, &model.built)?;
-        for (r, o) in scn.runs.iter().zip(outs.iter()) {
+        for (ri, (r, o)) in scn.runs.iter().zip(outs.iter()).enumerate() {
             account_trace(&mut self.stats, r, o);
-            if o.exit == Exit::Timeout && self.prop.id() != "C14" {
-                return Err(format!("run exceeded the wall-clock cap ({}s): scenario {} of {}", self.ctx.timeout.as_secs(), scn.index_no, scn.property));
+            if o.exit == Exit::Timeout {
+                // liveness: every run must terminate; the cap is ~10^4 x a normal run
+                let mut c = scn.clone();
+                c.runs = vec![r.clone()];
+                c.runs[0].fresh_data = true;
+                c.runs[0].fresh_dump = true;
+                self.violations.push((
+                    c,
+                    viol(format!("{}/timeout", self.prop.id()), format!("run {} did not terminate within {} s", ri, self.ctx.timeout.as_secs())),
+                ));
+                self.ctx.abort.store(true, Ordering::Relaxed);
+                return Err(ABORTED.to_string());
             }
         }
         self.stats.scenarios += 1;
@@ -342,10 +357,11 @@ pub fn run_check(prop: &dyn Prop, env: &CheckEnv) -> i32 {
     let ctx = ExecCtx {
         sut: env.sut.clone(),
         scratch: env.scratch.clone(),
-        timeout: Duration::from_secs(60),
+        timeout: Duration::from_secs(240),
         runs_done: AtomicU64::new(0),
         events_seen: AtomicU64::new(0),
         run_ns: AtomicU64::new(0),
+        abort: std::sync::atomic::AtomicBool::new(false),
     };
     let n_items = prop.items(env.tier);
     let next = AtomicU64::new(0);
@@ -381,7 +397,9 @@ pub fn run_check(prop: &dyn Prop, env: &CheckEnv) -> i32 {
                     h.item = i;
                     h.sub = 0;
                     if let Err(e) = prop.explore(i, &mut rng, env.tier, &mut h) {
-                        *herr.lock().unwrap() = Some(e);
+                        if e != ABORTED {
+                            *herr.lock().unwrap() = Some(e);
+                        }
                         break;
                     }
                 }
@@ -423,7 +441,7 @@ pub fn run_check(prop: &dyn Prop, env: &CheckEnv) -> i32 {
         let mut small = scn.clone();
         small.class = Some(class.clone());
         small.detail = Some(v.detail.clone());
-        if !env.no_shrink {
+        if !env.no_shrink && !class.ends_with("/timeout") {
             small = crate::shrink::shrink(prop, &ctx, &wd, small, class);
         }
         drop(wd);
@@ -542,10 +560,11 @@ pub fn replay(prop: &dyn Prop, sut: &Path, scratch: &Path, scn: &Scenario) -> i3
     let ctx = ExecCtx {
         sut: sut.to_path_buf(),
         scratch: scratch.to_path_buf(),
-        timeout: Duration::from_secs(60),
+        timeout: Duration::from_secs(240),
         runs_done: AtomicU64::new(0),
         events_seen: AtomicU64::new(0),
         run_ns: AtomicU64::new(0),
+        abort: std::sync::atomic::AtomicBool::new(false),
     };
     let wd = Workdir::new(&ctx, 0);
     let model = Model::new(scn);
@@ -557,7 +576,10 @@ pub fn replay(prop: &dyn Prop, sut: &Path, scratch: &Path, scn: &Scenario) -> i3
         }
     };
     let mut st = Stats::default();
-    let vs = prop.judge(scn, &model, &outs, &mut st);
+    let mut vs = prop.judge(scn, &model, &outs, &mut st);
+    if outs.iter().any(|o| o.exit == Exit::Timeout) {
+        vs.push(viol(format!("{}/timeout", prop.id()), "run did not terminate within the cap"));
+    }
     let quiet = std::env::var("RBPSIM_QUIET").is_ok();
     if !quiet {
         for (i, o) in outs.iter().enumerate() {
